@@ -83,7 +83,7 @@ func c29sEvs(evs []c20Ev) string {
 }
 
 // c29sLong: a long valid input of blank-separated tokens for the parser, and its token end offsets.
-func c29sLong(c *Ctx, parser string, units int) (string, []int) {
+func c29sLong(c *Ctx, parser string, units int, broken bool) (string, []int, int) {
 	var head string
 	var unit []string
 	switch parser {
@@ -91,13 +91,21 @@ func c29sLong(c *Ctx, parser string, units int) (string, []int) {
 		head = "language x ( go ) ; :: lexer id : /a/ :: parser "
 		unit = []string{"r : id id ; ", "q : id | r id ; ", "r : ; "}
 	case "js":
-		unit = []string{"a = b + 1 ; ", "f ( a , b ) ; ", "if ( a ) b = 2 ; ", "var c = [ 1 , 2 ] ; "}
+		unit = []string{"a = b + 1 ; ", "f ( a , b ) ; ", "if ( a ) b = 2 ; ", "var c = [ 1 , 2 ] ; ", "x = ( a ) => a ; ", "x = ( a , b ) ; "}
 	case "test":
-		unit = []string{"decl2 ", "decl1 ( a ) ", "{ decl2 } ", "if ( as ) decl2 ", "{ - decl2 } "}
+		unit = []string{"decl2 ", "decl1 ( a ) ", "{ decl2 } ", "if ( as ) decl2 ", "{ - decl2 } ", "eval ( 1.2 ) decl2 decl2 decl2 ", "eval ( 1.2 ) "}
 	}
+	// units with a syntax error the parser recovers from (tm and js have error recovery)
+	bad := map[string][]string{"tm": {"r : : id ; ", "r id ; "}, "js": {"a = = 1 ; ", "f ( , ) ; "}}[parser]
+	nBad := 0
 	var sb strings.Builder
 	sb.WriteString(head)
 	for i := 0; i < units; i++ {
+		if broken && len(bad) > 0 && c.Rng.Intn(12) == 0 {
+			sb.WriteString(bad[c.Rng.Intn(len(bad))])
+			nBad++
+			continue
+		}
 		sb.WriteString(unit[c.Rng.Intn(len(unit))])
 	}
 	src := sb.String()
@@ -107,7 +115,7 @@ func c29sLong(c *Ctx, parser string, units int) (string, []int) {
 			ends = append(ends, i+1)
 		}
 	}
-	return src, ends
+	return src, ends, nBad
 }
 
 var c29sSeeds = map[string][]string{
@@ -164,6 +172,7 @@ func c29sTokensUpTo(ends []int, off int) int {
 func c29Shipped(c *Ctx) {
 	restore := c20sQuietStderr() // a semantic action of parsers/test prints
 	defer restore()
+	c29ShippedLookahead(c)
 	for _, parser := range []string{"tm", "js", "test"} {
 		// (1) short inputs: seeds and mutations of the parser's own tests, every k
 		nShort := c.N(25, 300)
@@ -183,19 +192,21 @@ func c29Shipped(c *Ctx) {
 			}
 		}
 		// (2) long inputs: sampled k, bounded stop
-		nLong := c.N(2, 12)
+		nLong := c.N(4, 16)
 		for i := 0; i < nLong; i++ {
-			src, ends := c29sLong(c, parser, 300+c.Rng.Intn(400))
+			broken := i%2 == 1 && parser != "test"
+			src, ends, nBad := c29sLong(c, parser, 300+c.Rng.Intn(400), broken)
 			ref := c29sRun(parser, src, 0)
 			if ref.timeout || ref.panicVal != "" {
 				c.Violate(fmt.Sprintf("shipped %s parser does not finish a long valid input (timeout=%v panic=%q)", parser, ref.timeout, ref.panicVal), firstN(src, 200))
 				continue
 			}
-			if ref.err != "" {
+			if ref.err != "" && !broken {
 				c.Notes = append(c.Notes, fmt.Sprintf("c29 shipped %s: long input rejected (%s); generator out of date", parser, ref.err))
 				continue
 			}
-			c.Count(fmt.Sprintf("shipped %s: long input (%d tokens)", parser, len(ends)/500*500))
+			c.Count(fmt.Sprintf("shipped %s: long input (%d tokens, with recovered errors: %v)", parser, len(ends)/500*500, broken))
+			c29sSlack = 4 * nBad // tokens skipped by error recovery are not shifted
 			ks := []int{1, 2, 3, len(ref.evs) / 2, len(ref.evs) - 1, len(ref.evs)}
 			for j := 0; j < c.N(10, 40); j++ {
 				ks = append(ks, 1+c.Rng.Intn(len(ref.evs)))
@@ -208,6 +219,9 @@ func c29Shipped(c *Ctx) {
 		}
 	}
 }
+
+// c29sSlack: allowance of the bounded-stop measurement for tokens that error recovery skips.
+var c29sSlack int
 
 func c29sCompare(c *Ctx, parser, src string, k int, ref c29sOut, ends []int) {
 	out := c29sRun(parser, src, k)
@@ -244,7 +258,7 @@ func c29sCompare(c *Ctx, parser, src string, k int, ref c29sOut, ends []int) {
 		last = len(ends)
 	}
 	c.Count("shipped " + parser + ": bounded-stop measured")
-	if last-at > 512 {
+	if last-at > 512+c29sSlack {
 		c.Violate(fmt.Sprintf("cancelled after %d shifted tokens, but at least %d tokens were shifted before the parse stopped (%d > 512 further tokens; result %q)", at, last, last-at, out.err), desc)
 	}
 }
